@@ -2,7 +2,6 @@
 //! per operation (result + projections of the state after the call).
 use std::cell::{Cell, RefCell};
 use std::collections::HashMap;
-use std::io::Write as _;
 use std::panic::{catch_unwind, AssertUnwindSafe};
 use std::rc::Rc;
 
@@ -109,6 +108,7 @@ pub fn err_json(e: &Error<DevError>) -> Value {
             DevErrKind::WriteZero => json!({"k":"err","e":"Io","io":"writezero","id":0}),
             DevErrKind::Budget => json!({"k":"hang"}),
             DevErrKind::BadSeek => json!({"k":"err","e":"Io","io":"badseek","id":0}),
+            DevErrKind::Interrupted => json!({"k":"err","e":"Io","io":"interrupted","id":d.id}),
         },
         Error::UnexpectedEof => json!({"k":"err","e":"UnexpectedEof"}),
         Error::WriteZero => json!({"k":"err","e":"WriteZero"}),
@@ -1093,11 +1093,20 @@ pub fn run_program(prog: &Value, w: &mut dyn std::io::Write) -> u64 {
                 dev.begin_op();
                 if let Some(f) = fault.as_ref() {
                     if f["at"].as_i64() == Some(this_pc as i64) {
-                        dev.0.borrow_mut().fault_at = f["k"].as_u64();
+                        let mut d = dev.0.borrow_mut();
+                        d.fault_at = f["k"].as_u64();
+                        // {"flush": true}: the device flush of this call fails; {"intr": true}: with a transient "interrupted" error
+                        d.fault_flush = f.get("flush").and_then(Value::as_bool) == Some(true);
+                        d.fault_intr = f.get("intr").and_then(Value::as_bool) == Some(true);
                     }
                 }
                 let r = catch_unwind(AssertUnwindSafe(|| sess.exec(op, &cfg, &clock)));
-                dev.0.borrow_mut().fault_at = None;
+                {
+                    let mut d = dev.0.borrow_mut();
+                    d.fault_at = None;
+                    d.fault_flush = false;
+                    d.fault_intr = false;
+                }
                 let mut ev = Map::new();
                 ev.insert("op".into(), json!(name));
                 let panicked = match r {
